@@ -142,7 +142,7 @@ bop%(u)s(n: SI): Integer == {
 	s: Integer := 0;
 	l: List Integer := nil;
 	for i: SI in 1..n repeat {
-		b: Integer := (i::Integer)^%(e2)d + 12345678901234567;
+		b: Integer := ((i + 1000)::Integer)^%(e2)d + 12345678901234567;
 		(q, r) := divide(a, b);
 		s := s + (q rem 1000003) + r rem 1000003;
 		s := s + shift(b, 5 + i rem 70) rem 1000003 + shift(a, -(i rem 90)) rem 1000003;
@@ -730,3 +730,23 @@ def gen_program_parts(rng, size="small"):
         s += '\tprint << "@%d " << %s << newline;\n' % (i + 1, call)
     s += "}\nmain();\n"
     return s, parts
+
+
+MICRO_SKIP = ("frag", "chain", "bigdrop", "sizes", "rawrec", "tokens", "docs")
+
+
+def micro_programs(rng):
+    """One small program per block kind (a handful of iterations): small enough that a collection
+    at EVERY allocation of the program's own work is affordable.  Returns [(name, text)]."""
+    out = []
+    for kind, fn, _w in BLOCKS:
+        if kind in MICRO_SKIP:
+            continue
+        n = rng.range(3, 7)
+        d = fn("0", rng.fork(kind), n)
+        call = d[2]
+        # the call carries the block's own choice of size: replace it by the small one
+        call = call[:call.index("(")] + "(%d)" % n
+        out.append(("m_%s.as" % kind, render([(kind, d[0], call)])))
+    return out
+
